@@ -30,8 +30,25 @@ RULE = ('hostile population: a real asyncssh server with a scripted '
         'command and permitopen behaviour must match the option set of an '
         'accepted credential. honest population: real asyncssh client with a '
         'valid password / key / certificate / wrong credential against the '
-        'same server: admitted iff valid. Non-trivial = at least 2 auth '
-        'messages or a probe; distinct = (plan, schedule, trace) signature.')
+        'same server: admitted iff valid. restriction population: the '
+        'server\'s authorized_keys text is generated from a structured entry '
+        'list (plain and cert-authority lines with from= exact / wildcard / '
+        'negated / CIDR, command=, no-pty, no-port-forwarding, permitopen=, '
+        'environment=, principals=; several lines per key) and an optional '
+        'CA callback; a real asyncssh client connecting from a drawn source '
+        'address offers 1-3 credentials in order -- plain keys or '
+        'certificates built field by field (CA trusted or not, principals, '
+        'force-command, source-address, permit-pty, permit-port-forwarding, '
+        'validity on the simulated clock, host type), held locally or by a '
+        'key agent on the simulated network that may fail, close, or return '
+        'a wrong / truncated signature or a malformed identity list. A '
+        'reference model over the structure decides admission and the '
+        'restriction set of the first valid credential; after admission the '
+        'client probes exec (command the application sees, environment), a '
+        'terminal request, direct-tcpip to two destinations and '
+        'tcpip-forward: each must be served iff the model allows it. '
+        'Non-trivial = at least 2 auth messages or a probe; distinct = '
+        '(plan, schedule, trace) signature.')
 
 ASSUMPTIONS = [
     'simulated event loop admits exactly asyncio-legal executions',
@@ -41,16 +58,24 @@ ASSUMPTIONS = [
     'never consults asyncssh\'s parse of it',
     'GSSAPI, security-key, X.509 and agent-forwarded credentials are not '
     'exercised',
+    'a certificate force-command together with a different key command=, '
+    'and a failed agent signature for an RSA certificate (offered under two '
+    'key type names), have no documented outcome and are not judged',
 ]
 
 REAL = ['asyncssh server: connection, auth, auth_keys, public_key; asyncssh '
         'client in the honest population', 'PyCA']
 STUB = ['event loop + clock', 'TCP', 'executor', 'OS randomness',
-        'RefPeer as hostile client', 'scripted SSHServer application']
+        'RefPeer as hostile client', 'scripted SSHServer application',
+        'key agent (StubAgent on a simulated UNIX socket)',
+        'certificate builder (refssh/certs.py)']
 PROBES = ['success_seen', 'pipelined', 'validator_async',
           'success_with_pending_request', 'probe_before_auth',
           'options_checked', 'honest_admitted', 'honest_rejected',
-          'guest_success', 'kbdint_success', 'pk_success', 'pw_success']
+          'guest_success', 'kbdint_success', 'pk_success', 'pw_success',
+          'pop_restrict', 'agent_used', 'agent_fault_fired', 'cert_offered',
+          'restrictions_checked', 'forced_command', 'forwarding_restricted',
+          'restrict_undecided']
 
 PASSWORDS = {'alice': 'pw-alice', 'bob': 'pw-bob'}
 RESTRICTED = 'command="forced-cmd",no-pty,permitopen="dest:80"'
@@ -76,6 +101,7 @@ USERS = ['alice', 'bob', 'guest', 'kbd', 'nobody']
 
 def gen_plan(rng):
     honest = rng.chance(15)
+    restrict = rng.chance(15)
     plan = {
         'drbg': rng.below(1 << 30),
         'profile': {'p_sched': rng.choice([10, 40, 80, 95]),
@@ -86,6 +112,11 @@ def gen_plan(rng):
         'guest': rng.chance(40),
         'val_delay': rng.choice([0, 0, 1, 2]),
     }
+
+    if restrict:
+        from checks.c05_restrict import gen_restrict
+        plan['restrict'] = gen_restrict(rng)
+        return plan
 
     if honest:
         plan['honest'] = {
@@ -131,6 +162,10 @@ def gen_plan(rng):
 
 def valid_plan(plan):
     try:
+        if 'restrict' in plan:
+            from checks.c05_restrict import valid_restrict
+            return valid_restrict(plan['restrict'])
+
         if 'honest' in plan:
             return plan['honest']['user'] in ('alice', 'bob')
 
@@ -865,6 +900,10 @@ class KbdClient(RecClient):
 
 def run_plan(plan, sched_seed=None, sched_replay=None):
     world = World(plan, sched_seed, sched_replay)
+
+    if 'restrict' in plan:
+        from checks.c05_restrict import run_restrict
+        return run_restrict(world, plan)
 
     if 'honest' in plan:
         return run_honest(world, plan)
